@@ -8,7 +8,7 @@ MODULES = ["Shuttle.Props.C01"]
 RULE = ("seeded random tweezer programs (main kernel + 0-2 helper kernels; set_loc/move/turn_on/turn_off with all "
         "four slice/list selector combinations given as literals, action.ALL, typed and untyped kernel arguments; "
         "nested if/for with zero-iteration loops and loop-carried counters; grids from positions, shifts, scales, "
-        "sub-grids, slicing, spec zones), each compiled with the real @tweezer and traced on 2-4 argument tuples; "
+        "sub-grids, slicing, spec zones), each compiled with the real @tweezer (a quarter also with @tweezer(fold=False)) and traced on 2-4 argument tuples; "
         "plus a fixed corpus. A case is one (program, arguments) run; non-trivial = the reference op sequence "
         "contains at least one switch or move; distinct = distinct reference op sequences.")
 TRUSTED = ["modelled, not verified: kirin's lowering and interpreter loop (exercised by every case), bloqade-geometry Grid "
@@ -30,7 +30,7 @@ def run(ctx):
         for c in CORPUS:
             cases += T.trace_program(ctx, spec, traps, c["kernels"], [c["args"]])
         n_prog = 1500 if ctx.tier == "thorough" else 150
-        cases += T.random_traces(ctx, spec, n_prog)
+        cases += T.random_traces(ctx, spec, n_prog, unfolded_share=0.25)
         if ctx.counts.get("compile_fail", 0) > 0.3 * n_prog:
             raise HarnessFault("generator degenerate: >30% of generated kernels do not compile")
     # kernel level: the Lean evaluator runs the kernel's *source* (Model/Lang.lean) and the tracer
